@@ -177,8 +177,8 @@ namespace sim
 			const time_type& expiry_time);
 		high_resolution_timer(io_context& io_context,
 			const duration_type& expiry_time);
-		high_resolution_timer(high_resolution_timer&&) noexcept = default;
-		high_resolution_timer& operator=(high_resolution_timer&&) noexcept = default;
+		high_resolution_timer(high_resolution_timer&&) noexcept;
+		high_resolution_timer& operator=(high_resolution_timer&&) noexcept;
 		~high_resolution_timer();
 
 		std::size_t cancel();
@@ -1050,6 +1050,7 @@ namespace sim
 
 		void add_timer(asio::high_resolution_timer* t);
 		void remove_timer(asio::high_resolution_timer* t);
+		void replace_timer(asio::high_resolution_timer* from, asio::high_resolution_timer* to);
 
 		boost::asio::io_context& get_internal_service()
 		{ return m_service; }
@@ -1188,6 +1189,7 @@ namespace sim
 
 		void add_timer(high_resolution_timer* t);
 		void remove_timer(high_resolution_timer* t);
+		void replace_timer(high_resolution_timer* from, high_resolution_timer* to);
 
 		ip::tcp::endpoint bind_socket(ip::tcp::socket* socket, ip::tcp::endpoint ep
 			, boost::system::error_code& ec);
